@@ -128,7 +128,7 @@ example : lcAccepts false exNode exVal [seg "M", seg "k", seg "C"] .err = false 
 /-- Known finding `lc-scalar-slice-zero`: Length of a slice of scalars (`T.N`, three elements) stores 0.
 Already the repaired model with only this defect re-introduced is rejected. -/
 theorem repo_not_correct_scalar_slice :
-    lcAccepts false exNode exVal [seg "N"] (lcM GenCfg.repo false exNode .ptr exVal [seg "N"]) = false ∧
+    lcAccepts false exNode exVal [seg "N"] (lcM GenCfg.original false exNode .ptr exVal [seg "N"]) = false ∧
     lcAccepts false exNode exVal [seg "N"]
       (lcM { GenCfg.fixed with lcScalarSliceZero := true } false exNode .ptr exVal [seg "N"]) = false := by
   decide
@@ -136,7 +136,7 @@ theorem repo_not_correct_scalar_slice :
 /-- Known finding `lc-elem-stop-zero`: Capacity of a slice held in a slice (`T.LL[0]`, cap 5) stores 0. -/
 theorem repo_not_correct_elem_stop :
     lcAccepts true exNode exVal [seg "LL", seg "0" (some 0)]
-      (lcM GenCfg.repo true exNode .ptr exVal [seg "LL", seg "0" (some 0)]) = false ∧
+      (lcM GenCfg.original true exNode .ptr exVal [seg "LL", seg "0" (some 0)]) = false ∧
     lcAccepts true exNode exVal [seg "LL", seg "0" (some 0)]
       (lcM { GenCfg.fixed with lcElemStopZero := true } true exNode .ptr exVal [seg "LL", seg "0" (some 0)]) = false := by
   decide
@@ -149,7 +149,7 @@ def exRootMapVal : Val := .map false [str "a"] [.int 1]
 theorem repo_not_correct_root_zero :
     NodeWF exRootMap = true ∧ HascOK exRootMap = true ∧ FieldsDistinct exRootMap = true ∧
     WT exRootMap exRootMapVal = true ∧
-    lcAccepts false exRootMap exRootMapVal [] (lcM GenCfg.repo false exRootMap .ptr exRootMapVal []) = false ∧
+    lcAccepts false exRootMap exRootMapVal [] (lcM GenCfg.original false exRootMap .ptr exRootMapVal []) = false ∧
     lcAccepts false exRootMap exRootMapVal []
       (lcM { GenCfg.fixed with lcRootZero := true } false exRootMap .ptr exRootMapVal []) = false := by
   decide
@@ -166,7 +166,7 @@ theorem repo_not_correct_neg_index :
 `path[d]` out of range in the current tree. (C10 itself says nothing about Length of a struct, so
 `lcAccepts` does not reject it: the panic is C02's finding; the repaired model stores 0.) -/
 theorem repo_struct_stop_panics :
-    lcM GenCfg.repo false exNode .ptr exVal [seg "Q"] = .panic ∧
+    lcM GenCfg.original false exNode .ptr exVal [seg "Q"] = .panic ∧
     lcM { GenCfg.fixed with lcStructStopPanics := true } false exNode .ptr exVal [seg "Q"] = .panic ∧
     lcM GenCfg.fixed false exNode .ptr exVal [seg "Q"] = .val 0 := by
   decide
@@ -193,5 +193,38 @@ theorem hasc_needed :
     lcAccepts false badHasc (.struct [str "abc"]) [seg "F"] (lcM GenCfg.fixed false badHasc .ptr (.struct [str "abc"]) [seg "F"]) = false := by
   decide
 end NonVacuity
+
+/-! ### The tree as it is now
+
+After the five generator `fix:` commits that concern Length/Capacity (negative index, struct stop, element stop,
+root zero, scalar slices) and the typed-nil-root fix, no switch that `lcN`/`lcM` consult is left on in
+`GenCfg.repo`: the model of the current tree *is* the repaired model, for every argument form. -/
+section CurrentTree
+
+theorem lcN_repo (isCap : Bool) (p : List Seg) : ∀ (n : Node) (root : Bool) (v : Val),
+    lcN GenCfg.repo isCap n root v p = lcN GenCfg.fixed isCap n root v p := by
+  induction p with
+  | nil => intro n root v; cases n <;> rfl
+  | cons s rest ih =>
+    intro n root v
+    unfold lcN
+    simp only [ih]
+    rfl
+
+theorem lcM_repo (isCap : Bool) (n : Node) (f : Form) (v : Val) (p : List Seg) :
+    lcM GenCfg.repo isCap n f v p = lcM GenCfg.fixed isCap n f v p := by
+  have h : rootOfC GenCfg.repo f = rootOfC GenCfg.fixed f := rfl
+  unfold lcM
+  rw [h]
+  simp only [lcN_repo]
+
+/-- C10 for the emitter as it stands. -/
+theorem lc_current (isCap : Bool) (n : Node) (v : Val) (p : List Seg) (f : Form)
+    (hf : rootOf f = .ok) (hwf : NodeWF n = true) (hh : HascOK n = true) (hfd : FieldsDistinct n = true)
+    (hwt : WT n v = true) :
+    lcAccepts isCap n v p (lcM GenCfg.repo isCap n f v p) = true := by
+  rw [lcM_repo]; exact lc_correct isCap n v p f hf hwf hh hfd hwt
+
+end CurrentTree
 
 end Inspector.C10
